@@ -3,7 +3,7 @@
 T1   the generated tables (Gen.npzWrite/npzRequire, pickle state, numba struct) are validated against the
      running code by instrumentation: the `nodes` dict handed to np.savez, the order of `fp[...]`
      subscripts in load_npz, the identity of the objects in the state tuple, the struct fields;
-leg A  model (svdriver) vs implementation on representations: members written by save_npz (names, order,
+leg A  model (svdriver) vs implementation on representations: members written by save_npz (names — as a mapping, not their position in the archive —,
      object-ness, content), load_npz on well- and ill-formed member sets (result fields or error class),
      the two constructors on the load path against the model over an enumerated grid of consistent and inconsistent
      argument triples (the generated consistency checks), pickle state, numba boxing with narrow coordinate dtypes, shallow-copy aliasing;
@@ -388,6 +388,14 @@ def outcome_json(thunk, to_json):
         return {"err": impl.err_class(e), "exc": f"{type(e).__name__}: {str(e)[:120]}"}
 
 
+def by_member(outcome):
+    """a written member list as a mapping: the position of a member inside the archive carries no meaning (np.load presents the
+    archive by name), so model and implementation are compared with the members sorted by name"""
+    if isinstance(outcome.get("ok"), list):
+        return {**outcome, "ok": sorted(outcome["ok"], key=lambda kv: kv[0])}
+    return outcome
+
+
 def same_outcome(model, real):
     if "ok" in model:
         return "ok" in real and model["ok"] == real["ok"]
@@ -464,10 +472,12 @@ def t1_validate(ctx, cfg):
                 if (type(x) is klass) if exact else isinstance(x, klass):
                     expect += ms
                     break
-            got = list(seen.get("nodes", {}))
+            # the members handed to np.savez form a mapping (the archive is read by name): the table lists them sorted by
+            # member name, the running code inserts them in source order — compared as sets, with multiplicity
+            got = sorted(seen.get("nodes", {}))
             n += 1
-            if got != [k for k, _ in expect]:
-                bad.append(f"save_npz({label}) hands members {got} to np.savez, table says {[k for k, _ in expect]}")
+            if got != sorted(k for k, _ in expect):
+                bad.append(f"save_npz({label}) hands members {got} to np.savez, table says {sorted(k for k, _ in expect)}")
                 continue
             for k, a in expect:
                 v, w = seen["nodes"][k], getattr(x, a)
@@ -570,7 +580,7 @@ def leg_a_save(ctx, pool):
     for k, (label, case, real_save, real_rt) in enumerate(metas):
         ms, mr, me = outs[3 * k: 3 * k + 3]
         ctx.case(f"A:save:{case['array']['class']}", case, nontrivial=True)
-        if not same_outcome(ms, real_save):
+        if not same_outcome(by_member(ms), by_member(real_save)):
             ctx.fail("A", "model:npz_save", case, f"model {json.dumps(ms)[:300]} implementation {json.dumps(real_save)[:300]}")
         if not same_outcome(mr, real_rt):
             ctx.fail("A", "model:npz_roundtrip", case, f"model {json.dumps(mr)[:300]} implementation {json.dumps(real_rt)[:300]}")
